@@ -1,9 +1,10 @@
 (* C03 — every serialized profile is internally consistent.
    Proved here for the parts modelled in Model/ProfileTables.v: interning, the stack table, unique pid/tid strings, the thread order
    translation, and the table checker that the correspondence run applies to every table of every serialized profile.
-   Not yet modelled (their theorems are absent, the run-time checker covers their tables): frame/func/resource/native-symbol table
-   construction, marker field consumption, counters; see DESIGN.md 9. *)
-From SV Require Import Model.ProfileTables Proofs.ProfileTablesProofs.
+   and the per-thread frame / func / resource / string tables (Model/FrameTables.v).
+   Not yet modelled (their theorems are absent, the run-time checker covers their tables): native-symbol table, symbolicated frames
+   with inline depth, marker field consumption, counters; see DESIGN.md 9. *)
+From SV Require Import Model.ProfileTables Proofs.ProfileTablesProofs Model.FrameTables Proofs.FrameTablesProofs.
 From Coq Require Import Permutation.
 
 (* interning: the returned handle is in range and gives the key back; earlier handles keep their meaning *)
@@ -31,6 +32,13 @@ Theorem C03_finite_paths :
   forall tbl : list stack_key, prefix_earlier tbl -> forall i, i < length tbl -> exists fs, path tbl (Some i) fs.
 Proof. exact wf_prefix_walk_terminates. Qed.
 
+(* frame / func / resource / string tables: for ANY sequence of label frames, native frames (into libraries that exist) and string
+   conversions, all columns have their table's length and every stored index points into its table:
+   frame -> func, func -> name string and resource, resource -> library and name string *)
+Theorem C03_table_indices :
+  forall (nlibs : nat) (rs : list freq), Forall (req_ok nlibs) rs -> tt_wf nlibs (run_reqs rs).
+Proof. exact run_reqs_wf. Qed.
+
 (* pid / tid strings are pairwise distinct under any reuse of numeric ids *)
 Theorem C03_ids_unique : forall ids : list N, NoDup (make_all_unique [] ids).
 Proof. intros ids. exact (proj1 (make_all_unique_spec ids [])). Qed.
@@ -53,6 +61,7 @@ Print Assumptions C03_canonical.
 Print Assumptions C03_prefix_earlier_empty.
 Print Assumptions C03_stack_same_handle.
 Print Assumptions C03_finite_paths.
+Print Assumptions C03_table_indices.
 Print Assumptions C03_ids_unique.
 Print Assumptions C03_thread_refs.
 Print Assumptions C03_sort_permutes.
@@ -66,3 +75,9 @@ Example ex_c03 :
   sorted_threads [(0, (100, 0))]%N [(0%nat, (true, 5, None, (11, 0))%N); (0%nat, (false, 9, None, (10, 0))%N)] = [1; 0] /\
   new_thread_index [(0, (100, 0))]%N [(0%nat, (true, 5, None, (11, 0))%N); (0%nat, (false, 9, None, (10, 0))%N)] 1 = Some 0.
 Proof. vm_compute. repeat split. Qed.
+
+Example ex_c03_tables :
+  let t := run_reqs [FLabel 7; FNative 0 256 8 9; FString 5; FNative 0 516 10 9; FLabel 7] in
+  (tt_strings t, tt_res_lib t, tt_res_name t, tt_funcs t, tt_func_res t, tt_frame_func t) =
+  ([7; 8; 9; 5; 10]%N, [0], [2], [(0, None); (1, Some 0); (4, Some 0)], [None; Some 0; Some 0], [0; 1; 2]).
+Proof. vm_compute. reflexivity. Qed.
